@@ -153,6 +153,9 @@ PROPS = {
     'C02': _kan_props(['KVerif.Props.C02'],
         'hand-written capacity-edge shapes (11-14 held layers, 18 stacked one-shot layers, repeat re-entering its container, 11 concurrent tap-holds + queue flood, every valid key code once) plus random whole-grammar configurations (incl. custom actions) driven by histories that are not physically consistent (repeated presses, stray releases, repeat and tap events, unmapped codes, floods of 70-200 events); non-trivial = output changed at least twice; oracle: every configuration the real parser accepts must satisfy CfgWF (evaluated by the driver on the serialised parse result) and must be processed without panic/abort/hang',
         None, _crash_or_ok),
+    'C07': _kan_props(['KVerif.Props.C07'],
+        'every kind of timeout pending when the loop asks whether it may block (tap-hold, one-shot incl. rapid-event-delay 0, tap-dance lazy/eager, chords, macros incl. repeat, caps-word, hold-for-duration, on-idle, mouse wheel/move, two tap-holds from one switch, key-timing switch conditions) with input gaps around each timeout, plus random whole-grammar configurations; every case is run twice on the real code in virtual time: under the processing loop that blocks whenever can_block_update_idle_waiting allows, and under the same loop that asks the same question but always ticks; non-trivial = output changed at least twice; oracle: both runs must emit the same OS events at the same virtual times (classified different-output / postponed / bounded-delay otherwise, with the model-side diagnosis of which component a tick would still change at the blocking point)',
+        'C07o'),
     'C18': _kan_props(['KVerif.Props.C18'],
         'virtual keys with marker outputs (also a layer, a macro, a one-shot, a tap-hold as virtual key action) operated by on-press/on-release fake-key actions (press, release, tap, toggle), direct handle_fakekey_action calls, hold-for-duration with durations {1,2,3,5,10,50} x re-activation gaps {0,1,D-1,D,D+1,D+5} x 1-3 activations, on-idle actions under the virtual-time processing loop with idle durations {5,20,100} and typing that restarts the idle clock, plus random unsettled mixes; non-trivial = output changed at least twice; oracle on the implementation trace: settled operation sequences leave the virtual key held/up as press/release/tap/toggle prescribe, hold-for-duration releases no earlier than D after an activation and ends released, on-idle fires exactly once, not before D ms of idleness',
         'C18o'),
